@@ -62,8 +62,25 @@ def run(names, rtc=False):
     # restore evidence / replays produced on the mutated tree
     sh("cd %s && git checkout -- evidence replays 2>/dev/null; git clean -fdq replays" % HERE)
 
+def table():
+    rows = ["| seeded change | property | needs | proof tier alone | with bounded tier | first line reported |", "|---|---|---|---|---|---|"]
+    for name in sorted(os.listdir(SEED)):
+        p = os.path.join(SEED, name, "meta.json")
+        if not os.path.exists(p):
+            continue
+        m = json.load(open(p))
+        pr = m["checks"].get("proof-only", {})
+        rt = m["checks"].get("rtc", {})
+        line = (pr.get("lines") or rt.get("lines") or [""])[0]
+        line = line.split("replay=")[-1].split("/")[-1][:70] if line else ""
+        rows.append("| `%s` | %s | %s | %s | %s | %s |" % (name, m["property"], m.get("needs", "")[:110], pr.get("verdict", "-"), rt.get("verdict", "-"), line))
+    print("\n".join(rows))
+
+
 if __name__ == "__main__":
-    if sys.argv[1] == "add":
+    if sys.argv[1] == "table":
+        table()
+    elif sys.argv[1] == "add":
         needs = sys.argv[sys.argv.index("--needs") + 1] if "--needs" in sys.argv else ""
         add(sys.argv[2], sys.argv[3], sys.argv[4], sys.argv[5], needs)
     else:
